@@ -7,14 +7,14 @@ W="$1"; DEMO="$2"; shift 2
 cd "$W" || exit 2
 export CARGO_TARGET_DIR="$W/target" RUST_BACKTRACE=0 CARGO_NET_OFFLINE=true
 git apply --check -R SEEDED/patch.diff 2>/dev/null || { echo "patch not applied in worktree?"; git apply SEEDED/patch.diff || exit 2; }
-sh -c "$DEMO" > /tmp/vs-with.log 2>&1; a=$?
+sh -c "$DEMO" > "$W/SEEDED/.vs-with.log" 2>&1; a=$?
 git apply -R SEEDED/patch.diff || exit 2
-sh -c "$DEMO" > /tmp/vs-without.log 2>&1; b=$?
+sh -c "$DEMO" > "$W/SEEDED/.vs-without.log" 2>&1; b=$?
 echo "demo with change: rc=$a   without: rc=$b   $( [ $a -ne 0 ] && [ $b -eq 0 ] && echo CONFIRMED || echo NOT-CONFIRMED )"
-grep -E "^test .*(FAILED|ok)$|test result" /tmp/vs-with.log | head -6
-git checkout -- . && git clean -fdq -e target -e SEEDED
+grep -E "^test .*(FAILED|ok)$|test result" "$W/SEEDED/.vs-with.log" | head -6
+git checkout -- . && git clean -fdq -e target -e SEEDED; rm -f SEEDED/.vs-*.log
 git apply SEEDED/patch.diff || { echo "patch.diff does not apply to a clean checkout"; exit 2; }
 for t in "$@"; do
-    sh -c "$t" > /tmp/vs-tests.log 2>&1; c=$?
-    echo "existing tests, only patch.diff applied [$t]: rc=$c"; grep -E "FAILED|failed" /tmp/vs-tests.log | head -8
+    sh -c "$t" > "$W/SEEDED/.vs-tests.log" 2>&1; c=$?
+    echo "existing tests, only patch.diff applied [$t]: rc=$c"; grep -E "FAILED|failed" "$W/SEEDED/.vs-tests.log" | head -8
 done
